@@ -19,7 +19,7 @@ def main(argv):
             data = json.loads(open(argv[1]).read())
             mod = importlib.import_module(f"mbt.{data['property'].lower()}")
             core.build_repo()
-            out = mod.replay(data["rec"], None)
+            out = getattr(mod, "replay_any", mod.replay)(data["rec"], None)
             print(json.dumps(out, indent=1, default=str))
             return 1 if out else 0
         if argv[0] == "--selftest":
